@@ -1,5 +1,6 @@
 pub mod choice;
 pub mod known;
+pub mod readergen;
 pub mod sx;
 pub mod ri;
 pub mod pg;
